@@ -19,7 +19,7 @@ mod progress;
 
 use std::io::ErrorKind;
 use std::os::unix::fs::MetadataExt;
-use std::path::{Path, PathBuf};
+use std::path::{Component, Path, PathBuf};
 use std::{result, thread};
 use std::sync::Arc;
 
@@ -219,10 +219,11 @@ fn main() -> Result<()> {
             .next_back()
             .ok_or(XcpError::InvalidSource("Failed to find source directory name."))?;
 
-        let target_base = if is_dir(&dest)? && !opts.no_target_directory {
-            dest.join(sourcedir)
-        } else {
-            dest.to_path_buf()
+        // (A source ending in `..`, `.` or the root has no name of
+        // its own: its contents go into the destination itself.)
+        let target_base = match sourcedir {
+            Component::Normal(name) if is_dir(&dest)? && !opts.no_target_directory => dest.join(name),
+            _ => dest.to_path_buf(),
         };
 
         if source == &target_base || same_entry(source, &target_base, opts.dereference)? {
